@@ -165,8 +165,10 @@ class Gen:
             k = self.rng.below(3) + 1
             parts = [self.rng.choice(WORDS) for _ in range(k)]
             t = f"G{self.n}_" + "_".join(parts)
-            if t not in self.used_idents:
-                self.used_idents.add(t)
+            # two identifiers must not collapse to one variant / constant name (`Foo_a` / `foo_A`)
+            key = t.replace("_", "").lower()
+            if key not in self.used_idents:
+                self.used_idents.add(key)
                 return t
 
     def noref_ident(self, defn):
@@ -176,8 +178,9 @@ class Gen:
             k = self.rng.below(3) + 1
             t = f"N{defn}_" + "_".join(self.rng.choice(["apple", "Banana", "bar", "Baz", "barA", "Foo", "FooA", "foo", "x9", "Zed"])
                                        for _ in range(k))
-            if t not in self.used_idents:
-                self.used_idents.add(t)
+            key = t.replace("_", "").lower()
+            if key not in self.used_idents:
+                self.used_idents.add(key)
                 return t
 
     def unit_attr(self, with_scale, allow_prefix, scale_text=None, noref_of=None):
